@@ -327,6 +327,54 @@ def cmd_runs(ctx, idxs, delay_ms=700, tag=""):
 
 
 # ---------------------------------------------------------------- instant stages: option value, receiver latency
+def pkt_stage(ctx):
+    """Real startScanEngine over the real packet engine on an in-memory link / the real application engine, real plain
+    logger; a frame write that fails with ENOBUFS, one output write that fails (ENOSPC, EIO)."""
+    ok, _ = ctx.harness_run("c16", ["-pkt", "-out", "pkt.jsonl"], timeout=120)
+    return ctx.read_jsonl(os.path.join(ctx.work, "pkt.jsonl")) if ok else []
+
+
+def spec_pkt(o):
+    d = o["delay"]
+    what = {"pkt": "packet scan", "gen": "application scan"}[o["kind"]]
+    fault = ""
+    if o["fail_probe"]:
+        fault += ", the first write of probe %d fails with ENOBUFS" % o["fail_probe"]
+    if o["fail_write"]:
+        fault += ", write number %d to the output fails with %s" % (o["fail_write"], o["fail_err"])
+    head = "%s (%s, exit delay %d ms%s)" % (what, o["class"], d // MS, fault)
+    if not o["returned"]:
+        return head + ": startScanEngine did not return"
+    out = o["output"] or ""
+    if out and not out.endswith("\n"):
+        return head + ": the output ends in the middle of a record: %r" % out[-20:]
+    printed = [ln for ln in out.split("\n") if ln]
+    lost = set(o.get("lost") or [])
+    if o["kind"] == "pkt":
+        on_wire = {}
+        for w in o["writes"] or []:
+            if w["ok"]:
+                on_wire[w["probe"]] = w["at"]
+        if on_wire:
+            last = max(on_wire.values())
+            if o["return_at"] < last + d:
+                return (head + ": the scan returned %d ms after the last probe (probe %d) was really on the wire"
+                        % ((o["return_at"] - last) // MS, max(on_wire, key=on_wire.get)))
+        for probe, t in o["injects"] or []:
+            rec = "id=%d" % probe
+            if probe in on_wire and t <= on_wire[probe] + d - 60 * MS and rec not in lost and rec not in printed:
+                return (head + ": the reply to probe %d, on the link %d ms after the probe left (%d ms before the exit delay ran "
+                        "out), was not reported; output %r" % (probe, (t - on_wire[probe]) // MS,
+                                                               (on_wire[probe] + d - t) // MS, out))
+    else:
+        if o["return_at"] < o["last_scan_end"] + d:
+            return (head + ": the scan returned %d ms after the last probe had finished" % ((o["return_at"] - o["last_scan_end"]) // MS))
+        want = ["id=%d" % i for i in range(1, o["probes"] + 1) if "id=%d" % i not in lost]
+        if printed != want:
+            return head + ": results %s, records printed %s" % (want, printed)
+    return None
+
+
 def parse_stage(ctx):
     """--exit-delay D through every command's own flag set + parseRawOptions (hook): the value handed to withExitDelay."""
     ok, _ = ctx.harness_run("c16", ["-parse", "-out", "parse.jsonl"], timeout=60)
@@ -702,6 +750,13 @@ def run(ctx):
         if why and len(ctx.findings) < 3:
             report(ctx, o, why, ctx.seed, n)
     if os.path.exists(os.path.join(verif.HBIN, "c16")):
+        for o in pkt_stage(ctx):
+            ctx.count(o["class"], (o["kind"], o["id"], o["return_at"]), nontrivial=True,
+                      sample={"class": o["class"], "delay_ms": o["delay"] // MS, "return_ms": o["return_at"] // MS,
+                              "output": (o["output"] or "")[:60]})
+            why = spec_pkt(o)
+            if why and len(ctx.findings) < 3:
+                report(ctx, o, why, ctx.seed, n)
         prow = parse_stage(ctx)
         if not prow:
             ctx.broken.append(("correspondence: the option-value stage produced nothing", ""))
@@ -808,6 +863,12 @@ def replay(ctx, path):
     i = r["input"]
     if not ctx.harness_build("c16"):
         return 1
+    if i.get("kind") in ("pkt", "gen"):
+        ok, out = ctx.harness_run("c16", ["-pkt", "-pktonly", i["id"], "-out", "one.jsonl"], timeout=120)
+        got = ctx.read_jsonl(os.path.join(ctx.work, "one.jsonl")) if ok else []
+        why = next((w for w in map(spec_pkt, got) if w), None)
+        print("replay %s %s: %s" % (i["kind"], i["id"], why or "property holds on this run"))
+        return 1 if why else 0
     if i.get("kind") == "genfail":
         got = [o for o in genfail_runs(ctx) if o["id"] == i["id"]]
         why = next((w for w in map(spec_genfail, got) if w), None)
